@@ -89,8 +89,8 @@ CHECKS = {
          "DESIGN.md section 4, C09"),
 
  "C11": ("bounded exhaustive differential exploration (bit-exact) of transform equivalences, plus the step oracle's transform-preservation clause",
-         "fill(p) under each of 11 transforms vs fill(Path::transform(p,T)) under the identity for triangles over a 3x3 off-grid set, curves, arcs, even-odd ring, no-MoveTo path x 2 aa x 2 rules; stroke under T vs NonZero fill of the transformed stroke_to_path outline; CTM/source-transform cancellation for exactly invertible T (images pad/repeat x filters, raw gradients); singular T leaves the target unchanged for 8 calls x 4 contexts; push_clip_rect / mask / copy_surface / blend_surface ignore T; clear and pop_layer leave get_transform() bit-identical.",
-         "Source positioning under general T is decided by C12/C13 (which enumerate CTMs); mask() under a singular T is not asserted (the property's two clauses contradict there); determinants down to 1e-10 and stroke scales 1/50..400 (true-curve reference with round joins) are included.",
+         "fill(p) under each of 11 transforms vs fill(Path::transform(p,T)) under the identity for triangles over a 3x3 off-grid set, curves, arcs, even-odd ring, no-MoveTo path x 2 aa x 2 rules; stroke under T vs NonZero fill of the transformed stroke_to_path outline; CTM/source-transform cancellation for exactly invertible T (images pad/repeat x filters, raw gradients); singular T leaves the target unchanged for 10 calls (mask() included) x 4 contexts; push_clip_rect / mask / copy_surface / blend_surface ignore T; clear and pop_layer leave get_transform() bit-identical.",
+         "Source positioning under general T is decided by C12/C13 (which enumerate CTMs); mask() under a singular T is held to 'a non-invertible T draws nothing' (its placement ignores T, its source does not); determinants down to 1e-10 and stroke scales 1/50..400 (true-curve reference with round joins) are included.",
          "DESIGN.md section 4, C11"),
 }
 NOT_YET = "check not built yet in this round (design in DESIGN.md section 4); will be claimed once its explorer exists"
